@@ -736,6 +736,40 @@ static void func_split(vf::Ctx& c, Counters& cnt, const str& t, const str& al)
 		}
 		c.evals(1);
 	}
+	// key/value split, general: values that contain the key/value separator again, multi-byte separators, repeated keys,
+	// pairs without separator or with an empty key (both skipped); model: split by sep1, cut each piece at the FIRST sep2
+	for (int rep = 0; rep < 2; rep++) {
+		static const char* S1[] = {",", ";", "&&", "\n", ", "};
+		static const char* S2[] = {"=", ":", "=>", "==", "::"};
+		str sep1 = S1[r.below(5)], sep2 = S2[r.below(5)];
+		int m = r.range(0, 7);
+		str txt;
+		for (int i = 0; i < m; i++) {
+			if (i) txt += sep1;
+			int shape = (int)r.below(10);
+			str k = shape == 0 ? str() : rnd(r, r.range(1, r.below(4) ? 3 : 18), "abk");
+			str v = rnd(r, r.range(0, r.below(4) ? 8 : 30), "uv1 =:>");
+			if (shape == 1) txt += k;                      // no key/value separator at all
+			else txt += k + sep2 + v;
+		}
+		std::map<str, str> want;
+		std::vector<str> pairs = m_split(txt, sep1);
+		for (size_t i = 0; i < pairs.size(); i++) {
+			size_t j = pairs[i].find(sep2);
+			if (j != str::npos && j > 0) want[pairs[i].substr(0, j)] = pairs[i].substr(j + sep2.size());
+		}
+		c.desc("String" + show(txt) + ".split(" + show(sep1) + ", " + show(sep2) + ")");
+		asl::Dic<String> d = exact(txt).split(exact(sep1), exact(sep2));
+		if (d.length() != (int)want.size()) c.fail("split2.count", vf::fmt("%d entries, model %d", d.length(), (int)want.size()));
+		bool again = false;
+		for (std::map<str, str>::iterator it = want.begin(); it != want.end(); ++it) {
+			if (!d.has(exact(it->first))) { c.fail("split2.key", "key " + show(it->first) + " missing"); continue; }
+			verify(c, d[exact(it->first)], it->second, "split2.value");
+			if (it->second.find(sep2) != str::npos) again = true;
+		}
+		if (again) cnt.add("split2:value contains the key/value separator");
+		c.evals(1);
+	}
 }
 
 static void func_ws(vf::Ctx& c, Counters& cnt, const str& t0)
